@@ -22,34 +22,74 @@ impl Latch {
 
     /// Opens the latch unblocking all wait and wait_timeout calls forever
     pub fn open(&self) {
+        sync_point!("latch.open.lock:pre", &self.open);
         let mut open = self.open.lock().unwrap();
+        sync_point!("latch.open.lock:post", &self.open);
         *open = true;
+        sync_point!("latch.condvar.notify:pre", &self.open);
         self.condvar.notify_one();
+        sync_point!("latch.condvar.notify:post", &self.open);
+        sync_point!("latch.open.unlock:pre", &self.open);
+        #[cfg(feature = "verif-hooks")]
+        drop(open);
+        sync_point!("latch.open.unlock:post", &self.open);
     }
 
     /// Waits until open is called
     pub fn wait(&self) {
+        sync_point!("latch.open.lock:pre", &self.open);
         let mut open = self.open.lock().unwrap();
+        sync_point!("latch.open.lock:post", &self.open);
         while !*open {
+            sync_point!("latch.condvar.wait:pre", &self.open);
             open = self.condvar.wait(open).unwrap();
+            sync_point!("latch.condvar.wait:post", &self.open);
         }
+        sync_point!("latch.open.unlock:pre", &self.open);
+        #[cfg(feature = "verif-hooks")]
+        drop(open);
+        sync_point!("latch.open.unlock:post", &self.open);
     }
 
     /// Waits until open is called, with a timeout. The result will return Error::Timeout if a timeout occurred.
     pub fn wait_timeout(&self, duration: Duration) -> Result<(), ChainGangError> {
+        sync_point!("latch.open.lock:pre", &self.open);
         let mut open = self.open.lock().unwrap();
+        sync_point!("latch.open.lock:post", &self.open);
         while !*open {
+            sync_point!("latch.condvar.wait_timeout:pre", &self.open);
             let result = self.condvar.wait_timeout(open, duration).unwrap();
+            sync_point!("latch.condvar.wait_timeout:post", &self.open);
             if result.1.timed_out() {
+                sync_point!("latch.open.unlock:pre", &self.open);
+                #[cfg(feature = "verif-hooks")]
+                drop(result);
+                sync_point!("latch.open.unlock:post", &self.open);
                 return Err(ChainGangError::Timeout);
             }
             open = result.0;
         }
+        sync_point!("latch.open.unlock:pre", &self.open);
+        #[cfg(feature = "verif-hooks")]
+        drop(open);
+        sync_point!("latch.open.unlock:post", &self.open);
         Ok(())
     }
 
     /// Returns whether the latch has been opened or not
     pub fn opened(&self) -> bool {
+        #[cfg(feature = "verif-hooks")]
+        {
+            sync_point!("latch.open.lock:pre", &self.open);
+            let open = self.open.lock().unwrap();
+            sync_point!("latch.open.lock:post", &self.open);
+            let opened = *open;
+            sync_point!("latch.open.unlock:pre", &self.open);
+            drop(open);
+            sync_point!("latch.open.unlock:post", &self.open);
+            return opened;
+        }
+        #[cfg(not(feature = "verif-hooks"))]
         *self.open.lock().unwrap()
     }
 }
